@@ -2,6 +2,7 @@ package chsql
 
 import (
 	"math"
+	"sort"
 	"strings"
 )
 
@@ -624,4 +625,20 @@ func unknownFunction(name string) error {
 		}
 	}
 	return raise("UNKNOWN_FUNCTION", "unknown function %s", name)
+}
+
+// SupportedFunctions lists the implemented scalar functions and aggregate base functions
+// (aggregates additionally accept the combinators -If -Array -Distinct -State -Merge -MergeState
+// -SimpleState -OrNull -OrDefault).
+func SupportedFunctions() (scalars, aggregates []string) {
+	for n := range funcs {
+		scalars = append(scalars, n)
+	}
+	scalars = append(scalars, "and", "or", "if", "multiIf", "CAST", "in", "notIn", "globalIn", "globalNotIn", "arrayJoin")
+	for n := range aggBases {
+		aggregates = append(aggregates, n)
+	}
+	sort.Strings(scalars)
+	sort.Strings(aggregates)
+	return
 }
